@@ -3,7 +3,7 @@ import ast
 
 from ..loader import AnalysisError, attr_path, src, walk_no_nested_defs, norm_stmt, call_name
 from ..symx import SymX, classify, show, C, TRUE, FALSE, simp, is_const
-from . import C02, C11, C12
+from . import C02, C11, C12, shared
 
 EXPLANATION = (
     "save_results_to_file and main are summarised symbolically. (1) label table: every report line is 'label : "
@@ -502,10 +502,21 @@ def r6_same_file(ctx, chk, rule="C16.5"):
         chk.ok(rule, f.where(rd), "nothing reachable from main() changes the working directory: the file read is the file named")
 
 
+def r6b_no_memo(ctx, chk, rule="C16.5"):
+    main = ctx.prog.funcs.get("conditionalrewards.py::main")
+    if main is None:
+        return
+    funcs = [g for g in ctx.cg.reachable([main]) if g.mod.name == "conditionalrewards.py"]
+    n = shared.rule_no_memoised_io(ctx, chk, rule, funcs, "the report states the games of an earlier read, not of the file as it is when the command runs")
+    chk.ok(rule, main.where(), "%d driver functions reachable from main(): none is wrapped in a memoising decorator" % n) if not any(
+        o.rule == rule and o.status == "violation" and "memoised" in str(o.detail) for o in chk.obls) else None
+
+
 def run(ctx, chk):
     r1234_writer(ctx, chk)
     r4_main(ctx, chk)
     r6_same_file(ctx, chk)
+    r6b_no_memo(ctx, chk)
     r7_no_glued_chunks(ctx, chk)
     r8_results_untouched(ctx, chk)
     C11.r4_reader(ctx, chk, "C16.5")
